@@ -446,14 +446,15 @@ func newMux(cfg muxCfg, dir string) (*muxInst, error) {
 
 // wunit is one Write call.
 type wunit struct {
-	Track  int   `json:"t"`
-	DTS    int64 `json:"dts"`            // in the track's clock rate (pts == dts unless PTSOff)
-	RA     bool  `json:"ra,omitempty"`   // video: random access unit
-	Params int   `json:"p,omitempty"`    // video: 0 none inline, 1 current parameter set inline, 2 switch to the other parameter set (inline)
-	NAU    int   `json:"n,omitempty"`    // audio: access units / packets in this write (default 1)
-	POC    int   `json:"poc,omitempty"`  // h264b: picture order count of the frame; DTS is then the *presentation* time passed to Write
-	Seq    int   `json:"seq"`            // unique id, encoded in the payload
-	Size   int   `json:"size,omitempty"` // extra payload bytes
+	Track   int   `json:"t"`
+	DTS     int64 `json:"dts"`               // in the track's clock rate (pts == dts unless PTSOff)
+	RA      bool  `json:"ra,omitempty"`      // video: random access unit
+	Params  int   `json:"p,omitempty"`       // video: 0 none inline, 1 current parameter set inline, 2 switch to the other parameter set (inline)
+	NAU     int   `json:"n,omitempty"`       // audio: access units / packets in this write (default 1)
+	NoSlice bool  `json:"noslice,omitempty"` // h264 / h265: the access unit carries parameter sets only (the muxer takes note of them and drops the unit)
+	POC     int   `json:"poc,omitempty"`     // h264b: picture order count of the frame; DTS is then the *presentation* time passed to Write
+	Seq     int   `json:"seq"`               // unique id, encoded in the payload
+	Size    int   `json:"size,omitempty"`    // extra payload bytes
 }
 
 var verifT0 = time.Date(2023, 5, 17, 10, 20, 30, 123_000_000, time.FixedZone("X", 2*3600))
@@ -479,6 +480,15 @@ func (mi *muxInst) videoData(u wunit) [][]byte {
 	}
 	p := mi.vparam
 	var au [][]byte
+	if u.NoSlice {
+		ps := mi.cfg.pset(kind, p)
+		switch kind {
+		case "h264", "h264b":
+			return [][]byte{ps.sps, ps.pps}
+		case "h265":
+			return [][]byte{ps.vps, ps.sps, ps.pps}
+		}
+	}
 	switch kind {
 	case "h264b":
 		if u.Params != 0 {
